@@ -122,14 +122,39 @@ func (b typedBlock) Close() error      { return b.l.Close() }
 func (b typedBlock) Raw() klevdb.Log   { return b.l.Raw() }
 func (b typedBlock) AsLog() klevdb.Log { return &typedRaw{t: b.l} }
 
-func openBlock(dir string, typed bool) (blockLog, error) {
+// openBlock opens the blocking wrapper: directly (OpenBlocking / OpenTBlocking) or, with wrap, by
+// wrapping an already opened log (WrapBlocking / OpenT + WrapTBlocking).
+func openBlock(dir string, typed bool, wrap bool) (blockLog, error) {
 	opts := klevdb.Options{CreateDirs: true, KeyIndex: true, Rollover: 300}
-	if typed {
+	switch {
+	case typed && wrap:
+		t, err := klevdb.OpenT[[]byte, []byte](dir, opts, poisonCodec{}, poisonCodec{})
+		if err != nil {
+			return nil, err
+		}
+		l, err := klevdb.WrapTBlocking[[]byte, []byte](t)
+		if err != nil {
+			t.Close()
+			return nil, err
+		}
+		return typedBlock{l}, nil
+	case typed:
 		l, err := klevdb.OpenTBlocking[[]byte, []byte](dir, opts, poisonCodec{}, poisonCodec{})
 		if err != nil {
 			return nil, err
 		}
 		return typedBlock{l}, nil
+	case wrap:
+		raw, err := klevdb.Open(dir, opts)
+		if err != nil {
+			return nil, err
+		}
+		l, err := klevdb.WrapBlocking(raw)
+		if err != nil {
+			raw.Close()
+			return nil, err
+		}
+		return rawBlock{l}, nil
 	}
 	l, err := klevdb.OpenBlocking(dir, opts)
 	if err != nil {
@@ -548,10 +573,11 @@ type bScenario struct {
 	typed    bool
 	prePark2 bool // a second pre-parked waiter beyond
 	tailDel  bool // preset: the newest message is deleted again, so NextOffset-1 lies in a deleted tail
+	reopen   bool // the wrapper is closed and reopened after the presets
 }
 
 func (s bScenario) String() string {
-	return fmt.Sprintf("hold %s[%s bykey=%v]@%s + %v typed=%v second-waiter=%v tail-deleted=%v", s.held, s.offCls, s.byKey, s.window, s.secs, s.typed, s.prePark2, s.tailDel)
+	return fmt.Sprintf("hold %s[%s bykey=%v]@%s + %v typed=%v second-waiter=%v tail-deleted=%v reopened=%v", s.held, s.offCls, s.byKey, s.window, s.secs, s.typed, s.prePark2, s.tailDel, s.reopen)
 }
 
 var bSecondaries = []string{"publish-pass", "publish-empty", "publish-2", "waiter-at", "waiter-beyond", "waiter-below", "cancel", "close", "noise", "publish-poison"}
@@ -576,7 +602,7 @@ func enumerateBScenarios(tier string, seed int64, scale float64) []bScenario {
 		for _, oc := range classes {
 			add := func(secs []string) {
 				k++
-				out = append(out, bScenario{held: x.held, window: x.window, offCls: oc, byKey: k%3 == 0, secs: secs, typed: k%2 == 0, prePark2: k%4 < 2, tailDel: k%5 == 0})
+				out = append(out, bScenario{held: x.held, window: x.window, offCls: oc, byKey: k%3 == 0, secs: secs, typed: k%2 == 0, prePark2: k%4 < 2, tailDel: k%5 == 0, reopen: k%7 == 3})
 			}
 			add(nil)
 			for _, s := range bSecondaries {
@@ -609,7 +635,7 @@ func runBScenario(cfg *RunCfg, rep *Reporter, cov *Cov, idx int, sc bScenario) {
 	br := &bRun{cfg: cfg, rep: rep, cov: cov, typed: sc.typed, id: fmt.Sprintf("b%d", idx)}
 	br.dir = filepath.Join(cfg.Scratch, br.id)
 	defer os.RemoveAll(br.dir)
-	l, err := openBlock(br.dir, sc.typed)
+	l, err := openBlock(br.dir, sc.typed, idx%4 == 3)
 	if err != nil {
 		rep.Inconclusive("open blocking failed")
 		return
@@ -635,6 +661,21 @@ func runBScenario(cfg *RunCfg, rep *Reporter, cov *Cov, idx int, sc bScenario) {
 			br.preset = append(br.preset, o)
 			next = nx2
 		}
+	}
+	if sc.reopen {
+		// the wrapper is closed and opened again over the log that now has content: its notifier
+		// must start at the log's NextOffset
+		if err := l.Close(); err != nil {
+			rep.Inconclusive("close before reopen failed")
+			return
+		}
+		l, err = openBlock(br.dir, sc.typed, idx%2 == 0)
+		if err != nil {
+			rep.Inconclusive("reopen blocking failed")
+			return
+		}
+		br.l = l
+		cov.Add("c18.reopened_over_existing_log", 1)
 	}
 	offOf := func(cls string) int64 {
 		switch cls {
@@ -863,12 +904,23 @@ func runBPerturb(cfg *RunCfg, rep *Reporter, cov *Cov, idx int) {
 	br := &bRun{cfg: cfg, rep: rep, cov: cov, typed: idx%2 == 1, id: fmt.Sprintf("bp%d", idx), perturb: true}
 	br.dir = filepath.Join(cfg.Scratch, br.id)
 	defer os.RemoveAll(br.dir)
-	l, err := openBlock(br.dir, br.typed)
+	l, err := openBlock(br.dir, br.typed, idx%4 >= 2)
 	if err != nil {
 		return
 	}
 	br.l = l
 	next, _ := br.presetPublish(1 + r.Intn(3))
+	if idx%5 == 4 {
+		// closed and reopened over the existing log (alternating constructor)
+		if l.Close() != nil {
+			return
+		}
+		if l, err = openBlock(br.dir, br.typed, idx%2 == 0); err != nil {
+			return
+		}
+		br.l = l
+		cov.Add("c18.reopened_over_existing_log", 1)
+	}
 	nW, nP := 1+r.Intn(8), 1+r.Intn(4)
 	withClose := r.Chance(0.3)
 	hm := &hookMode{perturb: true, clients: map[int64]*hookClient{}}
